@@ -109,13 +109,31 @@ structure LRxn where
   stoich : List (LName × Int)
 deriving Inhabited
 
-/-- `(dict(zip(bs, ns)) | dict(zip(bp, np))).get(k, k)`: in each `dict(zip(..))` the last
-    binding of a key wins, and the products' dict overrides the substrates' -/
-def replacement (bs : List Name) (ns : List LName) (bp : List Name) (np : List LName) (k : Name) :
-    LName :=
-  match ((bp.zip np).reverse ++ (bs.zip ns).reverse).lookup k with
+/-- `substrate_names[k]` (a `defaultdict(list)` filled from `zip(base_substrates, new_substrates,
+    strict=True)`; both lists have the same length): the new names of the occurrences of `k` among
+    the substrates, in order -/
+def occurrencesOf : List Name → List LName → Name → List LName
+  | s :: ss, n :: ns, k => if s = k then n :: occurrencesOf ss ns k else occurrencesOf ss ns k
+  | _, _, _ => []
+
+/-- `dict(zip(base_products, new_products, strict=True)).get(k, k)`: the last binding of a key wins -/
+def productName (bp : List Name) (np : List LName) (k : Name) : LName :=
+  match (bp.zip np).reverse.lookup k with
   | some n => n
   | none => plain k
+
+/-- the `for k in args` loop (after repo commit "fix: isotopomer reactions of a compound that takes
+    part more than once ..."): the j-th mention of a substrate compound reads its j-th occurrence,
+    `occurrences[min(mentions[k], len(occurrences) - 1)]`; a name that is no substrate reads the
+    products' dict.  `seen` lists the arguments already handled, so `mentions[k] = seen.count k`. -/
+def replaceArgs (bs : List Name) (ns : List LName) (bp : List Name) (np : List LName) :
+    List Name → List Name → List LName
+  | _, [] => []
+  | seen, k :: rest =>
+    (match occurrencesOf bs ns k with
+     | [] => productName bp np k
+     | o :: os => (o :: os).getD (min (seen.count k) os.length) o)
+      :: replaceArgs bs ns bp np (k :: seen) rest
 
 /-- body of the `for rate_suffix in ...` loop of `_create_isotopomer_reactions` -/
 def isoReaction (r : BRxn) (labelmap : List Nat) (bs bp : List Name) (ls lp : List Nat)
@@ -128,7 +146,7 @@ def isoReaction (r : BRxn) (labelmap : List Nat) (bs bp : List Name) (ls lp : Li
   let newProducts := assignLabels bp productLabels
   pure { name := ⟨r.name, some suffix⟩
          fn := r.fn
-         args := r.args.map (replacement bs newSubstrates bp newProducts)
+         args := replaceArgs bs newSubstrates bp newProducts [] r.args
          stoich := repack newSubstrates newProducts }
 
 /-- `_create_isotopomer_reactions`: the reactions it adds, in order -/
@@ -224,6 +242,49 @@ def buildModel (b : Base) (lv : List (Name × Nat)) (maps : List (Name × List N
          derived := b.derived.map fun kd => (kd.1, { fn := kd.2.fn, args := kd.2.args.map (totalName lv) })
          rxns := rxns.flatten }
 
+/-! ### the public queries of `LabelMapper` -/
+
+/-- `LabelMapper.get_isotopomers`: `{name: _generate_binary_labels(name, num) for name, num in
+    label_variables.items()}` -/
+def getIsotopomers (lv : List (Name × Nat)) : List (Name × List LName) :=
+  lv.map fun kn => (kn.1, binaryLabels kn.1 kn.2)
+
+/-- `self.label_variables[name]` -/
+def labelCount (lv : List (Name × Nat)) (x : Name) : Except LErr Nat :=
+  match lv.lookup x with
+  | some n => .ok n
+  | none => .error (.keyError x)
+
+/-- `LabelMapper.get_isotopomer_of` -/
+def getIsotopomerOf (lv : List (Name × Nat)) (x : Name) : Except LErr (List LName) := do
+  let n ← labelCount lv x
+  pure (binaryLabels x n)
+
+/-- `LabelMapper.get_isotopomers_of_at_position` (positions as a list; non-negative indices):
+    `label_positions[position] = "1"` raises `IndexError` beyond the compound's positions; the regex
+    `name__<[01] or 1 per position>` is matched against the isotopomer names in their order (for a
+    compound without positions the only name `name` does not match `name__`) -/
+def isotopomersAtPosition (lv : List (Name × Nat)) (x : Name) (positions : List Nat) :
+    Except LErr (List LName) := do
+  let n ← labelCount lv x
+  if positions.any (fun p => decide (n ≤ p)) then .error .indexError
+  else if n = 0 then pure []
+  else pure (((patterns n).filter fun u => positions.all fun p => u.getD p false).map
+    fun u => ⟨x, some u⟩)
+
+/-- `it.combinations(xs, k)` in iteration order -/
+def combos : List Nat → Nat → List (List Nat)
+  | _, 0 => [[]]
+  | [], _ + 1 => []
+  | x :: xs, k + 1 => (combos xs k).map (x :: ·) ++ combos xs (k + 1)
+
+/-- `LabelMapper.get_isotopomers_of_with_n_labels`: one name `f"{name}__{pattern}"` per combination
+    of `k` positions (so a compound without positions and `k = 0` yields `name__`) -/
+def isotopomersWithNLabels (lv : List (Name × Nat)) (x : Name) (k : Nat) :
+    Except LErr (List LName) := do
+  let n ← labelCount lv x
+  pure ((combos (List.range n) k).map fun ps => ⟨x, some (initSuffix n ps)⟩)
+
 /-! ### numeric reading of a reaction list (what `get_right_hand_side` computes: the
     derivative of a variable is the sum over reactions of coefficient × rate) -/
 
@@ -289,7 +350,7 @@ def totalsEnv (lv : List (Name × Nat)) (σ : LName → Rat) (a : Name) : Rat :=
     reaction does not touch labelled compounds -/
 def RxnOk (lv : List (Name × Nat)) (maps : List (Name × List Nat)) (r : BRxn) : Prop :=
   match maps.lookup r.name with
-  | some lm => nProd lv r ≤ lm.length ∧ MassAction lv r ∧ DistinctOccurrences lv r
+  | some lm => nProd lv r ≤ lm.length ∧ MassAction lv r
   | none => (∀ kv ∈ r.stoich, lv.lookup kv.1 = none) ∧ (r.stoich.map (·.1)).Nodup
 
 /-! ### numeric reading of a whole labelled model (driver side of the tie) -/
